@@ -299,9 +299,33 @@ def main(ck):
     exe = os.path.join(priv, "h_c07")
     shutil.copy2(exe0, exe)
     try:
+        no_blocking_primitive(ck, b)
         explore_and_compare(ck, exe)
     finally:
         shutil.rmtree(priv, ignore_errors=True)
+        cases = os.path.join(vlib.COQ, "cases")
+        for f in os.listdir(cases) if os.path.isdir(cases) else []:
+            if re.match(r"c07s?_%d_\d+\.v$" % os.getpid(), f):
+                try:
+                    os.remove(os.path.join(cases, f))
+                except OSError:
+                    pass
+
+
+def no_blocking_primitive(ck, b):
+    """'never blocks a thread of the underlying executor', source side: the model has only non-blocking atomic operations
+    on the jobs word; the strand's translation unit must not name a blocking primitive at all."""
+    bad = []
+    for rel in ("src/exe/strand.cpp", "include/yaclib/exe/strand.hpp"):
+        text = open(os.path.join(b["src"], rel)).read()
+        text = re.sub(r"//[^\n]*|/\*.*?\*/", "", text, flags=re.S)
+        for m in re.finditer(r"\b(mutex|condition_variable|lock_guard|unique_lock|\.wait\w*\(|->wait\w*\(|Wait\w*\(|sleep\w*|yield\(|atomic_wait|\.lock\(|notify_\w+)", text):
+            bad.append("%s: %s" % (rel, m.group(0)))
+    ck.cov["obligations"] += 1
+    if bad:
+        ck.broken.append(dict(name="Strand source names a blocking primitive (model has none)", detail="\n".join(bad)))
+    else:
+        ck.cov["discharged"] += 1
 
 
 def opts_of(args):
@@ -334,7 +358,7 @@ def explore_and_compare(ck, exe):
                 ck.notes.append("exploration of %s %s hit the time limit; its partial output is not used" % (sc, " ".join(args)))
                 continue
             ck.hits.append(dict(what="harness crashed on %s (rc=%d) %s" % (sc, rc, (err or out)[-600:]), key="crash",
-                                replay=dict(harness="h_c07", scenario=sc, args=args, choices=m.group(2) if m else None)))
+                                replay=dict(harness="h_c07", scenario=sc, opts=opts_of(args), choices=m.group(2) if m else None)))
             continue
         hs = [r for r in rows if "mode" in r]
         heads += hs
@@ -361,7 +385,7 @@ def explore_and_compare(ck, exe):
     ck.cov["random_configurations"] = random_cfgs
     ck.cov["explore_wall_s"] = round(time.time() - t0, 1)
     for t in traces:
-        if t["fail"]:
+        if t["fail"] and not t["fail"].startswith("skipped:"):
             ck.hits.append(dict(what="%s: %s" % (t["scenario"], t["fail"]),
                                 key=t["scenario"].split("/")[0] + ":" + re.sub(r"\d+\.\d+", "J", t["fail"])[:50],
                                 replay=dict(harness="h_c07", scenario=t["scenario"], choices=t["choices"],
